@@ -5,7 +5,7 @@ import json, os
 V = "/verif"
 props = [json.loads(l) for l in open(os.path.join(V, "properties.jsonl"))]
 
-NOTE_COMMON = ("Trusted base: the simulator kernel (simrt), the simulated net/sync packages, the source rewriter simprep (rules R1-R7, "
+NOTE_COMMON = ("Trusted base: the simulator kernel (simrt), the simulated net/sync packages, the source rewriter simprep (rules R1-R8, "
                "no sipproxy-specific knowledge), the independent SIP reader sipwire and the reference model in harness/model.go. "
                "Scheduling points are synchronisation, channel, timer and I/O operations. Schedules, faults and inputs are sampled from VERIF_SEED; "
                "a clean batch is evidence, not proof.")
@@ -59,7 +59,7 @@ m = {
     "setup_cmd": "bash /verif/setup.sh",
     "hooks": {
         "guard": "verif",
-        "enable": "no hooks in /repo: every check rewrites a scratch copy of /repo's working tree with /verif/bin/simprep (rules R1-R7, DESIGN.md 2.1) and builds it with the harness files under -tags verif",
+        "enable": "no hooks in /repo: every check rewrites a scratch copy of /repo's working tree with /verif/bin/simprep (rules R1-R8, DESIGN.md 2.1) and builds it with the harness files under -tags verif",
         "baseline_off_cmd": "cd /repo && go test -vet=off -count=1 ./...",
         "source_commits": [],
         "add_only": True,
